@@ -262,6 +262,40 @@ pub fn run(prop: &str, tier: &str, replay: Option<&str>) -> i32 {
         });
         rep.add(sec);
     }
+    // C1b'. explicit serial numbers of every length 0..=24 octets x first octet {00, 01, 7f, 80, ff} x filling {00, 5a, ff}:
+    // the INTEGER says exactly the caller's number (leading zero octets are not part of a number)
+    {
+        let mut cases: Vec<Vec<u8>> = Vec::new();
+        for len in 0..=24usize {
+            for first in [0x00u8, 0x01, 0x7f, 0x80, 0xff] {
+                for fill in [0x00u8, 0x5a, 0xff] {
+                    if len == 0 {
+                        if first == 0 && fill == 0 {
+                            cases.push(vec![]);
+                        }
+                        continue;
+                    }
+                    let mut v = vec![fill; len];
+                    v[0] = first;
+                    cases.push(v);
+                }
+            }
+        }
+        // beyond 20 octets / empty: not conformant input
+        let cases: Vec<Vec<u8>> = cases.into_iter().filter(|c| !conformant_only || (!c.is_empty() && c.len() <= 20 && c.iter().any(|b| *b != 0) && (c[0] & 0x80 == 0))).collect();
+        let ctxs = [stub_self_ctx(Alg::Ed25519, 1), stub_issuer_ctx(Alg::EcP256, &DnSpec::cn("issuer"), &KeyIdSpec::Sha256, Alg::Ed25519, "pair")];
+        let sec = Section::new("sweep/serial-lengths", "explicit serial numbers of 0..=24 octets x 5 first octets x 3 fillings, self-signed and issuer-signed");
+        run::sweep_cases(&sec, &cases, &|c| format!("serial={:02x?}", c), &|c| {
+            let mut st = CertState::default();
+            st.serial = Some(c.clone());
+            let mut out = judge.judge(&st, &ctxs[0]);
+            let o2 = judge.judge(&st, &ctxs[1]);
+            out.findings.extend(o2.findings);
+            out.transitions += o2.transitions;
+            out
+        });
+        rep.add(sec);
+    }
     // C1c. element counts: lists of n elements for n around 127/128, 255/256 (and 0..3, 1000) in every list-typed field
     {
         let counts: Vec<usize> = vec![0, 1, 2, 3, 16, 126, 127, 128, 129, 255, 256, 257, 1000];
